@@ -479,8 +479,11 @@ func (g *gen) iface(name string, shared *embed, extra []string) (string, Iface) 
 		// parameters named like locals a generated body might want to declare
 		pool := []string{"fn", "f", "ok", "v", "ret", "res", "result", "zero", "args", "out", "calls", "lock", "m", "i", "s", "x", "tmp", "buf", "info", "c"}
 		a, b2 := pool[g.tp.Int(len(pool))], pool[g.tp.Int(len(pool))]
+		if g.tp.Int(3) == 0 {
+			a = "fn" // the name generated code reaches for first
+		}
 		if a != b2 {
-			res := []string{"", " error", " (err error)", " (count int, err error)"}[g.tp.Int(4)]
+			res := []string{"", " error", " (err error)", " (count int, err error)", " (err error)"}[g.tp.Int(5)]
 			fmt.Fprintf(&b, "\tWatch(topic string, %s any, %s func())%s\n", a, b2, res)
 			taken["Watch"] = true
 			out.Methods++
